@@ -1231,8 +1231,27 @@ def render(M, C, origin="current tree"):
         return "if n < %d then\n%s%s\n%selse\n%s%s" % (mid, pad + "  ", bst(items, lo, mid, ind + 2), pad, pad + "  ", bst(items, mid, hi, ind + 2))
 
     def table(name, ty, items, default, doc):
+        """Two-level decision tree: the kernel instantiates the whole body of a definition at every call, so a single tree over
+        1 000 entries costs ~2 ms per lookup; leaves of 32 entries under a tree of leaf functions cost ~0.1 ms."""
         o.append("/-- %s -/" % doc)
-        o.append("def %s (n : Nat) : %s :=\n  if n < %d then\n    %s\n  else %s\n" % (name, ty, len(items), bst(items, 0, len(items), 4), default))
+        CH = 32
+        if len(items) <= 2 * CH:
+            o.append("def %s (n : Nat) : %s :=\n  if n < %d then\n    %s\n  else %s\n" % (name, ty, len(items), bst(items, 0, len(items), 4), default))
+            return
+        leaves = []
+        for ci in range(0, len(items), CH):
+            hi = min(ci + CH, len(items))
+            o.append("def %s_%d (n : Nat) : %s :=\n  %s\n" % (name, ci // CH, ty, bst(items, ci, hi, 2)))
+            leaves.append("%s_%d n" % (name, ci // CH))
+        # leaf k covers [k*CH, (k+1)*CH): a balanced tree on n over the leaf boundaries
+
+        def top(lo, hi, ind):
+            if hi - lo == 1:
+                return leaves[lo]
+            mid = (lo + hi) // 2
+            pad = " " * ind
+            return "if n < %d then\n%s%s\n%selse\n%s%s" % (mid * CH, pad + "  ", top(lo, mid, ind + 2), pad, pad + "  ", top(mid, hi, ind + 2))
+        o.append("def %s (n : Nat) : %s :=\n  if n < %d then\n    %s\n  else %s\n" % (name, ty, len(items), top(0, len(leaves), 4), default))
     o.append("-- first node of each function: " + ", ".join("%s=%d" % (n, e) for n, e in zip(M.slice, M.entries_of)))
     table("nodeAt", "Node", ["⟨%d, %s, %s⟩" % (fn, op(t), _lnat_list(succ)) for fn, t, succ in M.nodes], "⟨0, .nop, []⟩",
           "node n = ⟨function, event, successors⟩ (decision tree on n)")
